@@ -72,6 +72,13 @@ class FCFG(CFG):
                                   production.features, ParseTree(production.head))
                 if processed.add(end_idx, new_state):
                     chart[end_idx].append(new_state)
+        # The variable may already be completed on the empty word at this
+        # position, before this state was waiting for it
+        for other in list(processed.generator(end_idx)):
+            if not other.is_incomplete() and \
+                    other.positions[0] == end_idx and \
+                    other.production.head == next_var:
+                _completer(other, chart, processed)
 
     def contains(self, word: Iterable[Union[Terminal, str]]) -> bool:
         """ Gives the membership of a word to the grammar
@@ -134,7 +141,10 @@ class FCFG(CFG):
                     _completer(state, chart, processed)
         while chart[len(chart) - 1]:
             state = chart[len(chart) - 1].pop()
-            if not state.is_incomplete():
+            if state.is_incomplete() and state.next_is_variable():
+                # Variables can still derive the empty word at the end
+                self.__predictor(state, chart, processed)
+            elif not state.is_incomplete():
                 _completer(state, chart, processed)
         for state in processed.generator(len(word)):
             if state.positions[0] == 0 and not state.is_incomplete() and state.production.head == self.start_symbol:
